@@ -164,13 +164,22 @@ def _run(ctx, files):
       if not args or inf.resolve_callee(call, call) is not None:
         continue
       set_args = [a for a in args if inf.is_set(a, call)]
-      if not set_args:
+      # `f(sorted(S))`: the same site, canonicalised by the caller
+      sorted_args = [a for a in args if isinstance(a, ast.Call)
+                     and dotted(a.func) == "sorted" and a.args
+                     and inf.is_set(a.args[0], call)]
+      if not set_args and not sorted_args:
         continue
       cands = _candidates(ctx, mod, call)
       if not cands:
         continue
       qual = _c04._qualname(mod, call)
       callee_txt = src(call.func)
+      for a in sorted_args:
+        base = f"{rel.removeprefix('pytype/')}:{qual}|{callee_txt}({src(a.args[0])})"
+        k = counter[base] = counter.get(base, 0) + 1
+        ctx.ok(base if k == 1 else f"{base}#{k}", rel, call.lineno,
+               {"argument": src(a), "canonicalised": "sorted at the call site"})
       for a in set_args:
         base = f"{rel.removeprefix('pytype/')}:{qual}|{callee_txt}({src(a)})"
         k = counter[base] = counter.get(base, 0) + 1
@@ -224,4 +233,45 @@ def r4_10_whole(ctx):
   _run(ctx, [f for f in _c04._scope_files(ctx, whole=True) if f not in quick])
 
 
-VARIANTS = []
+PPB = "pytype/pretty_printer_base.py"
+ERRORS = "pytype/errors/errors.py"
+_PRINT_TYPES = ("      print_types = {\n"
+                "          self._pp.print_type(v, literal=literal) for v in binding.variable.data\n"
+                "      }\n")
+
+VARIANTS = [
+    {"name": "seeded-C04-r3m1", "rule": "R4.10", "patch": "seeded/C04-r3m1/patch.diff",
+     "expect": "fire"},
+    # other callers / callees, same obligation
+    {"name": "typevar-constraints-deduped-through-a-set-before-jointypes", "rule": "R4.10",
+     "file": "pytype/output.py", "expect": "fire",
+     "old": "      return pytd_utils.JoinTypes(\n          self.value_instance_to_pytd_type(node, p, None, seen, view)\n          for p in v.param.constraints\n      )",
+     "new": "      return pytd_utils.JoinTypes({\n          self.value_instance_to_pytd_type(node, p, None, seen, view)\n          for p in v.param.constraints\n      })"},
+    {"name": "call-trace-argument-types-through-a-set", "rule": "R4.10",
+     "file": "pytype/tracer_vm.py", "expect": "fire",
+     "old": "      return pytd_utils.JoinTypes(a.to_pytd_type(node) for a in arg.data)",
+     "new": "      return pytd_utils.JoinTypes({a.to_pytd_type(node) for a in arg.data})"},
+    {"name": "join-printed-types-dedupes-by-first-occurrence-loop", "rule": "R4.10", "expect": "fire",
+     "edits": [(PPB, "    typs = set(typs)  # dedup\n",
+                "    first = []\n    for t in typs:\n      if t not in first:\n        first.append(t)\n    typs = first\n"),
+               (PPB, "      literal_contents = set()\n", "      literal_contents = []\n"),
+               (PPB, "          literal_contents.update(t[len(\"Literal[\") : -1].split(\", \"))",
+                "          literal_contents.extend(t[len(\"Literal[\") : -1].split(\", \"))"),
+               (PPB, "', '.join(sorted(literal_contents))", "', '.join(literal_contents)")]},
+    # behaviour-preserving twins
+    {"name": "twin-print-types-built-by-set-call", "rule": "R4.10", "file": ERRORS, "expect": "silent",
+     "old": _PRINT_TYPES,
+     "new": "      print_types = set(\n          self._pp.print_type(v, literal=literal) for v in binding.variable.data\n      )\n"},
+    {"name": "twin-join-printed-types-dedupes-into-frozenset", "rule": "R4.10", "file": PPB, "expect": "silent",
+     "old": "    typs = set(typs)  # dedup\n", "new": "    typs = frozenset(typs)  # dedup\n"},
+    {"name": "twin-join-printed-types-sorts-the-deduped-types", "rule": "R4.10", "file": PPB, "expect": "silent",
+     "old": "    typs = set(typs)  # dedup\n", "new": "    typs = sorted(set(typs))  # dedup\n"},
+    {"name": "twin-caller-sorts-before-the-call", "rule": "R4.10", "file": ERRORS, "expect": "silent",
+     "old": "            f\"{self._pp.join_printed_types(print_types)}\"",
+     "new": "            f\"{self._pp.join_printed_types(sorted(print_types))}\""},
+    {"name": "twin-print-types-renamed-and-joined-outside-the-f-string", "rule": "R4.10", "expect": "silent",
+     "edits": [(ERRORS, _PRINT_TYPES,
+                "      shown = {\n          self._pp.print_type(v, literal=literal) for v in binding.variable.data\n      }\n"),
+               (ERRORS, "      if len(print_types) > 1:\n        details += (\n            \"\\nIn assignment of type: \"\n            f\"{self._pp.join_printed_types(print_types)}\"\n        )",
+                "      if len(shown) > 1:\n        joined = self._pp.join_printed_types(shown)\n        details += \"\\nIn assignment of type: \" + joined")]},
+]
